@@ -88,7 +88,11 @@ def make(cls, p, dst, live, refs, w):
         sid = rnd.choice(cand) if cand and rnd.random() < 0.5 else fresh
         return [wire.encode('REQUEST_N', sid=sid, n=0)], sid, False
     if cls == 'lease_unexpected':
-        return [wire.encode('LEASE', extra=b'\x00\x00\x03\xe8\x00\x00\x00\x05')], 0, True
+        # a LEASE although no lease was negotiated: whatever it grants (nothing / one request / already expired), the requests the
+        # receiving endpoint makes afterwards must not be held back by it
+        ttl = rnd.choice([0, 0, 1000, 1, 0x7FFFFFFF])
+        n = rnd.choice([0, 0, 1, 5])
+        return [wire.encode('LEASE', extra=ttl.to_bytes(4, 'big') + n.to_bytes(4, 'big'))], 0, True
     if cls == 'ignore_flag_garbage':
         return [fresh.to_bytes(4, 'big') + bytes([(8 << 2) | 0x02, 0]) + b'\x01'], fresh, False
     if cls == 'metadata_flag_no_length':
